@@ -3,6 +3,10 @@ import NitroVerif.Driver.Codec
 import NitroVerif.Driver.Table
 import NitroVerif.Driver.Barrier
 import NitroVerif.Driver.RefCount
+import NitroVerif.Driver.SkipConc
+import NitroVerif.Driver.Mvcc
+import NitroVerif.Driver.Backup
+import NitroVerif.Driver.MvccBackup
 namespace NitroVerif.Driver
 
 def engineByName (name : String) : Option Engine :=
@@ -12,6 +16,9 @@ def engineByName (name : String) : Option Engine :=
   | "nodelist" => some nodeListEngine
   | "barrier" => some barrierEngine
   | "refcount" => some refcountEngine
+  | "skipconc" => some skipConcEngine
+  | "mvcc" => some mvccBkEngine
+  | "backupimg" => some backupImgEngine
   | _ => none
 
 end NitroVerif.Driver
